@@ -53,12 +53,16 @@ struct Inst {
     pl::Instance in;
     std::map<int, RefBank> ref;      // key index -> reference bank
     size_t ref_capacity = 0;         // reference of the reserved capacity
+    std::vector<uint16_t> hist;      // operations applied so far (part of the state identity in the "histories" legs)
 };
 
 static std::vector<uint8_t> g_bankfile;
 
+static bool g_history_identity = false;   // --histories 1: no state matching at all - every history is its own state, so bookkeeping that the state key does not know about (a cached cursor, a hint) cannot be merged away
 struct C16Model : mcx::Model {
     std::vector<OpT> ops;
+    bool op_in_depth(size_t op, int) const override { if(!g_history_identity) return true; const OpT &o = ops[op];   // focused alphabet of the "histories" legs: creations and removals on one key per bucket + a second key of bucket 0, and one reservation
+        if(o.k == OP_CREATE || o.k == OP_CREATERT || o.k == OP_REMOVE) return o.key == 0 || o.key == 1 || o.key == 3 || o.key == 4; return o.k == OP_RESERVE && o.arg == 4; }
     C16Model() {
         auto kn = [](int k) { char b[32]; snprintf(b, sizeof b, "%u/%u/%u", KEYS[k].perc, KEYS[k].msb, KEYS[k].lsb); return std::string(b); };
         for(int k = 0; k < NKEYS; k++) ops.push_back({OP_GET, k, 0, 0, "getBank(" + kn(k) + ",0)"});
@@ -141,6 +145,7 @@ struct C16Model : mcx::Model {
     }
 
     void apply(void *p, size_t opi, mcx::Verdict &v, uint64_t &tags) override {
+        ((Inst *)p)->hist.push_back((uint16_t)opi);
         Inst &I = *(Inst *)p; const OpT &o = ops[opi];
         OPN2::BankMap &map = I.in.synth().m_insBanks;
         std::string opk;
@@ -203,6 +208,7 @@ struct C16Model : mcx::Model {
     }
 
     void key(void *p, vu::Ser &s) override {
+        if(g_history_identity) { Inst &H = *(Inst *)p; s.u32((uint32_t)H.hist.size()); for(auto x : H.hist) s.u16(x); }
         Inst &I = *(Inst *)p; OPN2::BankMap &map = I.in.synth().m_insBanks;
         s.u64(map.m_size); s.u64(map.m_capacity);
         // bucket chains in chain order
@@ -222,7 +228,7 @@ struct C16Model : mcx::Model {
 
 int main(int argc, char **argv) {
     pl::install_hooks(true);
-    { mcx::Args a = mcx::parse_args(argc, argv); if(a.extra.count("universe") && a.extra["universe"] == "edge") memcpy(KEYS, KEYS_EDGE, sizeof KEYS); }
+    { mcx::Args a = mcx::parse_args(argc, argv); if(a.extra.count("universe") && a.extra["universe"] == "edge") memcpy(KEYS, KEYS_EDGE, sizeof KEYS); if(a.extra.count("histories")) g_history_identity = a.extra["histories"] == "1"; }
     C16Model m;
     return mcx::run_main(argc, argv, m, "C16", 4, 6);
 }
